@@ -417,8 +417,14 @@ pub fn execute(prop: &str, c: &DCase, n: u64, dry_run: bool) -> Outcome {
     let before = Snapshot::take(&[&tree, &target]);
     let files = file_list(&g.built);
     let (args, _rp) = dedupe_args(c, &files, &g.canon_roots, &target, dry_run);
-    let run = Run::fclones(&g.cd).args(&args).stdin(g.report_bytes.clone());
-    let dedupe_cmd = format!("{} < report", run.cmdline());
+    // (every third case starts the dedupe command in the parent of the tree: the report carries the
+    // base directory of the `group` run)
+    let elsewhere = c.tree.entries.len() % 3 == 1 && !(c.op == Op::Move && !target.is_absolute());
+    let mut run = Run::fclones(&g.cd).args(&args).stdin(g.report_bytes.clone());
+    if elsewhere {
+        run = run.cwd(&g.cd.base);
+    }
+    let dedupe_cmd = format!("{}{} < report", if elsewhere { "cd .. && " } else { "" }, run.cmdline());
     let dedupe = run.run();
     let after = Snapshot::take(&[&tree, &target]);
     let report = if c.text { parse_text(&g.report_bytes) } else { parse_json(&g.report_bytes) };
